@@ -169,12 +169,30 @@ func (o *oracle) released(n *Node, kind string, H uint64, R int, id types.BlockI
 		set = map[string]bool{}
 		o.rel[rk] = set
 	}
+	if o.cl.mode == ModeSigner && n.starting && len(set) == 0 {
+		c.Probe("first-signed-during-wal-replay")
+	}
 	set[bk] = true
 	o.note(n.idx, v)
+	if o.cl.mode == ModeSigner {
+		c.Evals(1)
+		short := bk
+		if len(short) > 10 {
+			short = short[:10]
+		}
+		o.cl.tracef("node%d (incarnation %d) released %s H=%d R=%d block=%q", n.idx, n.incarn, kind, H, R, short)
+	}
 	if len(set) > 1 {
 		// I2: at most one prevote and one precommit per round
-		c.Violate("double-vote", fmt.Sprintf("C01/I2/%s", kind), "node %d released two different %ss at H=%d R=%d: %v", n.idx, kind, H, R, keysOf(set))
+		if o.cl.mode == ModeSigner {
+			c.Violate("double-sign", "C04/node/two-payloads-for-one-hrs/"+kind, "the validator key of node %d released two different %ss at H=%d R=%d (incarnation %d): %v", n.idx, kind, H, R, n.incarn, keysOf(set))
+		} else {
+			c.Violate("double-vote", fmt.Sprintf("C01/I2/%s", kind), "node %d released two different %ss at H=%d R=%d: %v", n.idx, kind, H, R, keysOf(set))
+		}
 		return
+	}
+	if o.cl.mode == ModeSigner {
+		return // the other disciplines are C01's subject
 	}
 	if name, bad := o.badBlocks[bk]; bad && bk != "" {
 		c.Violate("voted-invalid-block", "C02/vote/"+name, "node %d released a %s for catalogue-invalid block (%s) at H=%d R=%d", n.idx, kind, name, H, R)
@@ -220,13 +238,20 @@ func (o *oracle) releasedProposal(n *Node, p *types.Proposal) {
 	}
 	set[p.BlockPartsHeader.String()+fmt.Sprint(p.POLRound)] = true
 	if len(set) > 1 {
-		o.cl.c.Violate("double-proposal", "C01/I2/proposal", "node %d signed two different proposals at H=%d R=%d", n.idx, p.Height, p.Round)
+		if o.cl.mode == ModeSigner {
+			o.cl.c.Violate("double-sign", "C04/node/two-payloads-for-one-hrs/proposal", "the validator key of node %d signed two different proposals at H=%d R=%d", n.idx, p.Height, p.Round)
+		} else {
+			o.cl.c.Violate("double-proposal", "C01/I2/proposal", "node %d signed two different proposals at H=%d R=%d", n.idx, p.Height, p.Round)
+		}
 	}
 }
 
 // committing: node n is about to commit block with seenCommit.
 func (o *oracle) committing(n *Node, block *types.Block, seen *types.Commit) {
 	c := o.cl.c
+	if o.cl.mode == ModeSigner {
+		return
+	}
 	H := block.Height
 	hk := fmt.Sprintf("%x", block.Hash().Bytes())
 	// I5: > 2/3 precommits for this block in one round handed to the node
@@ -363,6 +388,12 @@ func (o *oracle) checkAfterEvent(e *event) {
 			default:
 				// not what this property is about: the node counts as crashed
 				c.Probe("consensus-failure-as-crash")
+				c.Probe("consensus-failure-site/" + site)
+				if len(n.failMsg) > 600 {
+					cl.tracef("failure: %s", n.failMsg[:600])
+				} else {
+					cl.tracef("failure: %s", n.failMsg)
+				}
 			}
 			kernelStop(n)
 		}
